@@ -428,6 +428,9 @@ func (f File) Generate(inputWriter io.Writer, settings GenerateSettings) error {
 	if err := f.Validate(); err != nil {
 		return fmt.Errorf("cannot generate file: %w", err)
 	}
+	if err := f.checkFieldNames(settings); err != nil {
+		return fmt.Errorf("cannot generate file: %w", err)
+	}
 	settings.typeMarshallers = f.typeMarshallers()
 	settings.typeByters = f.typeByters()
 	settings.typeByteReaders = f.typeByteReaders(settings)
@@ -833,6 +836,69 @@ func exposePrefix(prefix string, settings GenerateSettings) string {
 		return strings.ToLower(string(prefix[0])) + prefix[1:]
 	}
 	return prefix
+}
+
+// generatedMethods are the methods every generated record type has. Go does not allow a
+// field and a method of one type to share a name.
+var generatedMethods = map[string]bool{
+	"MarshalBebop": true, "MarshalBebopTo": true, "UnmarshalBebop": true, "MustUnmarshalBebop": true,
+	"EncodeBebop": true, "DecodeBebop": true, "Size": true, "OpCode": true,
+}
+
+// checkFieldNames rejects a schema with a field whose Go name is that of a generated method,
+// or with two fields of one record that differ only in the case of their first letter and so
+// get the same Go name (the output could not compile).
+func (f File) checkFieldNames(settings GenerateSettings) error {
+	check := func(record string, fields []Field, readOnly bool) error {
+		seen := map[string]string{}
+		for _, fd := range fields {
+			name := exposeName(fd.Name, settings)
+			if readOnly {
+				name = unexposeName(fd.Name)
+			}
+			if generatedMethods[name] {
+				return fmt.Errorf("field %s of %s would have the name of the generated method %s", fd.Name, record, name)
+			}
+			if other, ok := seen[name]; ok {
+				return fmt.Errorf("fields %s and %s of %s would both be named %s", other, fd.Name, record, name)
+			}
+			seen[name] = fd.Name
+		}
+		return nil
+	}
+	msgFields := func(msg Message) []Field {
+		fields := make([]Field, 0, len(msg.Fields))
+		for _, i := range sortedIndices(msg.Fields) {
+			fields = append(fields, msg.Fields[i])
+		}
+		return fields
+	}
+	for _, st := range f.Structs {
+		if err := check(st.Name, st.Fields, st.ReadOnly); err != nil {
+			return err
+		}
+	}
+	for _, msg := range f.Messages {
+		if err := check(msg.Name, msgFields(msg), false); err != nil {
+			return err
+		}
+	}
+	for _, un := range f.Unions {
+		for _, i := range sortedIndices(un.Fields) {
+			ufd := un.Fields[i]
+			if ufd.Struct != nil {
+				if err := check(ufd.Struct.Name, ufd.Struct.Fields, ufd.Struct.ReadOnly); err != nil {
+					return err
+				}
+			}
+			if ufd.Message != nil {
+				if err := check(ufd.Message.Name, msgFields(*ufd.Message), false); err != nil {
+					return err
+				}
+			}
+		}
+	}
+	return nil
 }
 
 // goPredeclared lists Go's predeclared types and constants, and the builtin functions that
